@@ -118,3 +118,41 @@ Proof.
   - intros P' w' sl' Hch. destruct (kmpe_clip M P' w' sl' Hg Hdom Hch) as [Hb Hle].
     eapply Qle_trans; [apply (Hmin _ _ _ Hb)|exact Hle].
 Qed.
+
+(* ------------------------------------------------------------------ feasibility for k >= width *)
+(* any k source-to-sink paths that cover every non-ignored edge (and the subpath constraints) make the LP feasible:
+   zero weights and slack max f on every path *)
+Theorem kmpe_feasible_ge_width_paths (M : kmpe_inst) (P : N -> list node) :
+  let I := m_err M in
+  e_given I = None -> m_pieces M = [] -> wf_graph (eG I) -> p_allow_empty (e_base I) = false ->
+  kmpe_side M -> err_domain I ->
+  st_paths (eG I) (eK I) P ->
+  (forall e, In e (basic_edges I) -> exists i, In i (layers (eK I)) /\ mem_edge e (pairs (P i)) = true) ->
+  constraints_covered (e_base I) P ->
+  exists a, sat a (encode_kmpe M) /\ objective a (encode_kmpe M) == sumq (fun _ => max_flow I) (layers (eK I)).
+Proof.
+  intros I Hg Hpc WF Hae [Hcons Hpl] (Hfs & Hne & Hk) HP Hcover Hcov. subst I.
+  destruct (max_flow_in (m_err M) Hne) as (em & Hem & Emax).
+  assert (Hmint : e_int (m_err M) = true -> is_int (max_flow (m_err M))) by (rewrite Emax; apply (Hfs em Hem)).
+  assert (Hcast : cast (e_int (m_err M)) (max_flow (m_err M)) == max_flow (m_err M)) by (apply cast_int_id; exact Hmint).
+  assert (Hm0 : 0 <= max_flow (m_err M)) by (rewrite Emax; apply (Hfs em Hem)).
+  assert (Hmw : max_flow (m_err M) <= w_max (m_err M)).
+  { pose proof (w_max_ge (m_err M)) as HW. rewrite Hcast in HW.
+    assert (H1 : 1 <= inject_Z (Z.of_nat (eK (m_err M)))) by (change 1 with (inject_Z 1); rewrite <- Zle_Qle; lia).
+    assert (H2 : 0 <= (inject_Z (Z.of_nat (eK (m_err M))) - 1) * max_flow (m_err M)) by (apply Qmult_le_0_compat; lra). lra. }
+  assert (Hch : kmpe_choice M P (fun _ => 0) (fun _ => max_flow (m_err M))).
+  { split; [exact HP|]. split; [|split; [|exact Hcov]].
+    - intros i Hi. split; [lra|]. split; [intros _; exists 0%Z; reflexivity|]. split; [lra|exact Hmint].
+    - intros e He. destruct (Hfs e He) as (F0 & [S0 S1] & _). pose proof (flow_le_max (m_err M) e He) as FM.
+      destruct (Hcover e He) as (i0 & Hi0 & Hon).
+      assert (Z0 : sumq (fun i => 0 * onq P i e) (layers (eK (m_err M))) == 0).
+      { generalize (layers (eK (m_err M))). intros l. induction l as [|x l IH]; cbn [sumq]; [reflexivity|]. rewrite IH. ring. }
+      pose proof (sumq_ge_term (fun i => max_flow (m_err M) * onq P i e) (layers (eK (m_err M))) i0
+                    (fun i _ => Qmult_le_0_compat _ _ Hm0 (proj1 (onq01 P i e))) Hi0) as T.
+      cbn beta in T. unfold onq at 1 in T. rewrite Hon in T. cbn [indq] in T.
+      rewrite Z0, Qabs_Qmult, (Qabs_pos _ S0).
+      assert (A : Qabs (flow_of (m_err M) e - 0) == flow_of (m_err M) e) by (rewrite Qabs_pos; [ring|lra]).
+      rewrite A. assert (H2 : 0 <= (1 - scale_of (m_err M) e) * flow_of (m_err M) e) by (apply Qmult_le_0_compat; lra). lra. }
+  destruct (kmpe_complete M P _ _ Hg Hpc WF Hae (fun c e Hc He => proj2 (Hcons c e Hc He)) Hpl Hch) as (a & S & O & _).
+  exists a. split; [exact S|exact O].
+Qed.
